@@ -471,6 +471,42 @@ theorem C02_simple_range_exact (c : Nat) (op : BinOp) (v x : Value) (row : Row) 
       | (rename_i a b; cases h : compare a.toNat b.toNat <;> simp_all; done))
 
 
+
+/-! ### the AND-merge of two extracted ranges -/
+
+/-- When the two conjuncts do not both bound the same side, the merged range (bounds *and inclusive
+flags* as `extract_range_predicate` copies them) is TRUE on exactly the keys on which both
+conjuncts' ranges are TRUE — for all bounds, flags and keys.  (A flag copied from the wrong field
+falsifies this statement.) -/
+theorem C02_merge_exact (x : Value) (a b : Range)
+    (hlo : a.lo.isNone = true ∨ b.lo.isNone = true) (hhi : a.hi.isNone = true ∨ b.hi.isNone = true) :
+    inRangeSql x (mergeRange a b) = (inRangeSql x a && inRangeSql x b) := by
+  obtain ⟨alo, ahi, ail, aih⟩ := a
+  obtain ⟨blo, bhi, bil, bih⟩ := b
+  cases alo <;> cases blo <;> cases ahi <;> cases bhi <;>
+    simp at hlo hhi <;>
+    simp only [mergeRange, inRangeSql, Option.isNone_none, Option.isNone_some, if_true, if_false,
+      Bool.false_eq_true] <;>
+    cases x.isNull <;> simp [Bool.and_comm, Bool.and_left_comm, Bool.and_assoc]
+
+/-- In general (both conjuncts bound the same side: the left bound is kept) the merged range is a
+superset of the conjunction, which is why the engine re-checks WHERE unless `fullySatisfied` -/
+theorem C02_merge_superset (x : Value) (a b : Range)
+    (h : (inRangeSql x a && inRangeSql x b) = true) : inRangeSql x (mergeRange a b) = true := by
+  obtain ⟨alo, ahi, ail, aih⟩ := a
+  obtain ⟨blo, bhi, bil, bih⟩ := b
+  cases alo <;> cases blo <;> cases ahi <;> cases bhi <;>
+    simp only [mergeRange, inRangeSql, Option.isNone_none, Option.isNone_some, if_true, if_false,
+      Bool.false_eq_true, Bool.and_eq_true] at h ⊢ <;>
+    simp_all
+
+/-- `a < 20 AND a >= 10`: the lower bound comes from the right conjunct with its inclusive flag,
+so the key 10 is in the merged range -/
+example : mergeRange ⟨none, some (.int 20), false, false⟩ ⟨some (.int 10), none, true, false⟩
+      = ⟨some (.int 10), some (.int 20), true, false⟩
+    ∧ inRangeSql (.int 10) (mergeRange ⟨none, some (.int 20), false, false⟩ ⟨some (.int 10), none, true, false⟩) = true := by
+  decide
+
 /-! ### T2 for BETWEEN and for `col op₁ lit₁ AND col op₂ lit₂` -/
 
 def isCmpOp : BinOp → Bool
